@@ -23,6 +23,9 @@ import (
 var verifOther = errors.New("verif: other error")
 
 func verifDerr(class, code int64) error {
+	if class == breaker.VDShaped {
+		return breaker.VerifShaped(code/10, breaker.VerifSentinel(code%10))
+	}
 	if e := breaker.VerifWrapped(class); e != nil {
 		return e
 	}
